@@ -1,21 +1,21 @@
 #!/bin/bash
 # tools/keep_seed2.sh <PID> <A|B> <destletter> <tests-subdir...>  - round-2 variant of keep_seed.sh (worktrees under /tmp/seed2)
 pid=$1; x=$2; y=$3; shift 3
-wt=/tmp/seed2/$pid; out=/tmp/seed2/out_$pid; dst=/verif/seeded/${pid}_$y
+base=${SEEDBASE:-/tmp/seed2}; wt=$base/$pid; out=$base/out_$pid; dst=/verif/seeded/${pid}_$y
 git -C $wt checkout -q -- . || exit 2
 cd $wt
-PYTHONPATH=$wt timeout 1200 /venv/bin/python -W ignore $out/demo$x.py $wt > /tmp/seed2/demo_clean_$pid$x.log 2>&1; rc_clean=$?
+PYTHONPATH=$wt timeout 1200 /venv/bin/python -W ignore $out/demo$x.py $wt > $base/demo_clean_$pid$x.log 2>&1; rc_clean=$?
 git -C $wt apply $out/patch$x.diff || { echo "patch failed"; exit 2; }
-PYTHONPATH=$wt timeout 1200 /venv/bin/python -W ignore $out/demo$x.py $wt > /tmp/seed2/demo_mut_$pid$x.log 2>&1; rc_mut=$?
+PYTHONPATH=$wt timeout 1200 /venv/bin/python -W ignore $out/demo$x.py $wt > $base/demo_mut_$pid$x.log 2>&1; rc_mut=$?
 tests_rc=skipped
 if [ $# -gt 0 ]; then
-  PYTHONPATH=$wt timeout 1500 /venv/bin/python -m pytest -q -p no:cacheprovider --timeout=900 "$@" > /tmp/seed2/tests_$pid$x.log 2>&1; tests_rc=$?
-  tail -1 /tmp/seed2/tests_$pid$x.log
+  PYTHONPATH=$wt timeout 1500 /venv/bin/python -m pytest -q -p no:cacheprovider --timeout=900 "$@" > $base/tests_$pid$x.log 2>&1; tests_rc=$?
+  tail -1 $base/tests_$pid$x.log
 fi
 git -C $wt checkout -q -- .
 echo "$pid $x->$y demo clean rc=$rc_clean mutated rc=$rc_mut tests rc=$tests_rc"
 if [ $rc_clean -eq 0 ] && [ $rc_mut -ne 0 ]; then
   mkdir -p $dst; cp $out/patch$x.diff $dst/patch.diff; cp $out/demo$x.py $dst/demo.py; cp $out/notes$x.md $dst/notes.md
-  echo "{\"rc_clean\": $rc_clean, \"rc_mutated\": $rc_mut, \"tests\": \"$*\", \"tests_rc\": \"$tests_rc\", \"round\": 2}" > $dst/confirm.json
+  echo "{\"rc_clean\": $rc_clean, \"rc_mutated\": $rc_mut, \"tests\": \"$*\", \"tests_rc\": \"$tests_rc\", \"round\": 3}" > $dst/confirm.json
   echo kept
 fi
